@@ -58,6 +58,15 @@ CLAIMED = {
  "C33": ("exploration", "4.1, 5 C33", "real follower fed by lossy, duplicating, reordering and forging scripted relays; safety, exactness and bounded catch-up",
          "The follower (real visor+bolt+daemon handlers) is connected only to scripted relays holding the real publisher's blocks: GIVB in order / overlapping / gapped / shuffled / repeated / with forged or re-signed blocks, ignored or short answers, arbitrary announcements, disconnects, chunked and duplicated frames. Every event: the follower's chain is a prefix of the publisher's, block for block and signature for signature; after each GIVB its head equals the order-aware model (skip known, stop at first failure); after each accepted batch and each higher announcement it requests blocks above its head; finally, fault-free with one honest full-chain peer, it reaches the publisher's head within 10 request periods.",
          "Relays are scripted actors, not real nodes (real-node relaying is exercised in C10/C23 runs). Sampling."),
+ "C26": ("exploration", "4.5, 5 C26", "seeded peer-list operation histories with simulated days and reloads against an independent address validator",
+         "A real pex.New with its real Run goroutine on the fake clock is driven through add / bulk-add (0-600 strings from 26 IP classes x 15 port classes x decorations) / remove / retry / port-flag / fill operations, clock advances of a minute to 30 days, and shutdown + reload; after every operation every listed address must pass an independent validator (dotted IPv4, not unspecified / multicast / link-local / broadcast, loopback only when allowed, port 1024-65535), a bulk add must never leave more than Max peers, and every configured trusted peer must be present and trusted.",
+         "Address classes where definitions of 'global unicast' differ (0.0.0.0/8, 240/4, CGNAT) are not generated. The custom peers file (loaded without bound at start) is outside the statement and not exercised. The single-add path is observed but only bulk adds are judged against the bound, as stated."),
+ "C27": ("exploration", "4.5, 5 C27", "seeded client sessions against the real API handler with the README as route/status specification, fake clock for token expiry",
+         "Per run one API configuration (API-set subset, CSRF, header check, credentials, whitelist) and 20-60 requests over the 52 README-documented routes x 5 methods with token / Host / Origin / credential variants; whenever a stated condition fails (method not served, API set off, token missing / expired / tampered / forged / superseded, bad Host or Origin, wrong or boundary-shifted credentials) the response must carry the refusal status of one of the failing conditions (401 / 403 / 405).",
+         "Two recorded known findings (superseded CSRF token still accepted; README vs. code API set of /api/v2/wallet/recover). Only the 'only if' direction is judged. Whether endpoint logic ran is inferred from the status code."),
+ "C28": ("exploration", "4.5, 5 C28", "generated and mutated requests against a live simulated node",
+         "Against a real node with chain, pool, wallets and kv data, 20-80 requests per run over every documented route and method with parameters taken from live state and mutated; a panic (reported with the function it happened in), a status outside 200-599, a declared-JSON body that does not parse, or a verify answer without verdict is a violation, and afterwards the node must still list a conserved unspent set.",
+         "Requests go through httptest into the real handler, so net/http's own server loop, timeouts and connection handling are not exercised; 'hang' is detected only as a deadlock of the bubble."),
 }
 
 NA = {
@@ -108,12 +117,13 @@ def main():
     json.dump(m, open(os.path.join(V, "MANIFEST.json"), "w"), indent=1)
     print("claimed", len(checks), "not_applicable", len(NA))
 
-ENGINE = {"C08": "e4 (in e1 binary)", "C17": "e3", "C18": "e3", "C19": "e3", "C20": "e3"}
+ENGINE = {"C08": "e4 (in e1 binary)", "C26": "e6", "C27": "e5 (in e1 binary)", "C28": "e5 (in e1 binary)", "C17": "e3", "C18": "e3", "C19": "e3", "C20": "e3"}
 ADD_ONLY = False  # H7 rewrites three call sites in util/file.SaveBinary (ioutil.WriteFile/os.Remove -> fsWriteFile/fsRemove)
 ENGINES = [
+ dict(name="e6", path="/verif/harness/e6", serves_properties=["C26"], kind_free_text="real peer list with its Run goroutine in a synctest bubble, seeded operation histories"),
  dict(name="e3", path="/verif/harness/e3", serves_properties=["C17", "C18", "C19", "C20"],
       kind_free_text="wallet service, wallet types and key-value storage on a simulated disk (hook H7): operation histories, disk-error injection, crash-prefix enumeration, bit-rot"),
- dict(name="e1", path="/verif/harness/e1", serves_properties=["C01", "C02", "C03", "C04", "C05", "C06", "C07", "C08", "C10", "C22", "C23", "C24", "C25", "C33"],
+ dict(name="e1", path="/verif/harness/e1", serves_properties=["C01", "C02", "C03", "C04", "C05", "C06", "C07", "C08", "C10", "C22", "C23", "C24", "C25", "C27", "C28", "C33"],
       kind_free_text="single-goroutine discrete-event simulation of 1-3 real nodes (visor+bolt, and for the network properties the daemon handlers and gnet pool stepped through hooks H4/H5 over simulated connections) on the synctest fake clock, shadowed by the reference ledger model"),
 ]
 
